@@ -80,7 +80,23 @@ Definition run (input : list Z) : list Z :=
   let '(key, l) := w_id32 l in
   let nonce := map (fun b => b mod 256) (firstn 12 l) in let l := skipn 12 l in
   let '(rnd, l) := w_bytes l in
-  let '(kind, l) := w_next l in let '(pos, l) := w_next l in let '(val, _) := w_next l in
+  let '(kind, l) := w_next l in let '(pos, l) := w_next l in let '(val, l) := w_next l in
+  let '(_seed, l) := w_next l in
+  let '(again, l) := w_next l in
+  (* a second store under the same chunk id (new payload, key, nonce, coefficients): it replaces the first everywhere *)
+  let second :=
+    if again =? 0 then [] else
+    let '(data2, l) := w_bytes l in
+    let '(key2, l) := w_id32 l in
+    let nonce2 := map (fun b => b mod 256) (firstn 12 l) in let l := skipn 12 l in
+    let '(rnd2, _) := w_bytes l in
+    match store id data2 key2 nonce2 t n rnd2 with
+    | Throw e => [-1000; e]
+    | Val (held2, m2) =>
+        o_bytes held2 ++ o_opt (fetch id held2 (m_nonce m2) (m_shards m2) (m_threshold m2))
+        ++ o_opt (receive m2 held2)
+        ++ o_opt (match receive m2 held2 with Val (Some p) => Val (Some p) | _ => Val None end)
+    end in
   match store id data key nonce t n rnd with
   | Throw e => [-1000; e]
   | Val (held, m) =>
@@ -94,4 +110,5 @@ Definition run (input : list Z) : list Z :=
       ++ [match receive m' c' with Val (Some _) => 1 | _ => 0 end]
       ++ o_opt (match receive m' c' with Val (Some p) => Val (Some p) | _ => Val None end)
       ++ o_opt (receive m' c')
+      ++ second
   end.
